@@ -52,6 +52,8 @@ def hostile_projects(rng, files, quick):
         [("a.jst", J + "Description\n(see) hello\nGET /x\n  200 any\n")],
         [("a.jst", J + "URL /a/{x}\n  Path\n  {\"x\": 1}\n  Path\n  {\"x\": 2}\n")],
     ]
+    # the library picks one of several undefined types at random: repeat those documents so that every choice is seen
+    out += [pj for pj in out if any(b"nopeB" in (c.encode() if isinstance(c, str) else c) for _, c in pj)] * 11
     # macro chains: linear depth and doubling
     for depth in ([8] if quick else [8, 14]):
         body = J + "MACRO @m0\n(\n  Description\n  x\n)\n"
